@@ -178,7 +178,7 @@ pub struct C11Mon {
     pub extra_offer: bool,
     /// a decodable telegram was delivered while the station held the token (it does not read then): it is
     /// still in the receive buffer and will be processed after the station's next transmission
-    pub stale_pending: bool,
+    pub stale_pending: u8,
     /// the station's last transmission was a request that expects a reply: it is reading
     pub awaiting_reply: bool,
     /// senders of token offers that were delivered while the station was not reading: the station will
@@ -206,6 +206,8 @@ pub struct W2State {
     pub now: i64,
     pub p_us: i64,
     pub slot_us: i64,
+    /// scaled end of a status request to the station that it has not answered yet
+    pub open_status_req_end: Option<i64>,
     pub c11: C11Mon,
     pub apps: Apps,
     pub dead: bool,
@@ -262,6 +264,7 @@ impl W2State {
             now: 0,
             p_us,
             slot_us,
+            open_status_req_end: None,
             c11: C11Mon::default(),
             apps,
             dead: false,
@@ -343,6 +346,7 @@ impl W2State {
             let tx = self.bus.trace[self.trace_seen].clone();
             self.trace_seen += 1;
             if tx.sender == 0 {
+                self.open_status_req_end = None;
                 if self.verbose {
                     println!("  {:>9} us  station: {}", tx.start_us, rc::decode_all(&tx.bytes).iter().map(|f| match f { Ok(f) => f.short(), Err(b) => format!("?{}", hex(b)) }).collect::<Vec<_>>().join(" | "));
                 }
@@ -455,6 +459,11 @@ impl W2State {
         }
         if self.cfg.mon == W2Mon::C11 {
             self.c11_before_delivery(frame, t_send, bytes.len());
+            let end = self.bus.scaled(t_send) + bytes.len() as i64 * 11 * BIT;
+            self.open_status_req_end = match frame {
+                Some(f) if f.is_fdl_status_req() && f.da() == Some(self.cfg.ts) => Some(end),
+                _ => None,
+            };
         }
         if self.cfg.mon == W2Mon::C12R {
             let end = self.bus.scaled(t_send) + bytes.len() as i64 * 11 * BIT;
@@ -556,6 +565,14 @@ impl W2State {
                         if req.is_fdl_status_req() && req.da() == Some(self.cfg.ts) && !self.c12r.answered {
                             t_send = t_send.max(self.bus.us_ceil(*end) + self.slot_us + 3 * self.p_us);
                         }
+                    }
+                }
+                if self.cfg.mon == W2Mon::C11 {
+                    // the same politeness: after a status request to the station nobody talks into its reply
+                    // slot (otherwise the station replies late, between later telegrams, and what it
+                    // "was" when a token went by is ambiguous)
+                    if let Some(end) = self.open_status_req_end {
+                        t_send = t_send.max(self.bus.us_ceil(end) + self.slot_us + 3 * self.p_us);
                     }
                 }
                 let mark = self.bus.trace.len();
@@ -698,7 +715,7 @@ impl W2State {
             }
             let not_reading = self.c11.holder && in_ring && !self.c11.awaiting_reply;
             if not_reading {
-                self.c11.stale_pending = true;
+                self.c11.stale_pending = self.c11.stale_pending.saturating_add(1);
             }
             self.c11.awaiting_reply = false;
             if let rc::RFrame::Token { da, sa } = f {
@@ -760,7 +777,7 @@ impl W2State {
             if self.c11.holder && in_ring && !self.c11.awaiting_reply {
                 // undecodable bytes delivered while the station is not reading: they are still in its receive
                 // buffer after its next pass
-                self.c11.stale_pending = true;
+                self.c11.stale_pending = self.c11.stale_pending.saturating_add(1);
             }
             self.c11.awaiting_reply = false;
             if let Some((_, n, _, _heard)) = &mut self.c11.pass {
@@ -789,8 +806,8 @@ impl W2State {
         }
         self.c11.awaiting_reply = frame.is_request() && frame.req_expects_reply();
         if self.c11.awaiting_reply {
-            // whatever is in the receive buffer is consumed as (or instead of) the reply
-            self.c11.stale_pending = false;
+            // the first telegram in the receive buffer is consumed as (or instead of) the reply
+            self.c11.stale_pending = self.c11.stale_pending.saturating_sub(1);
         }
         // a telegram whose first byte was not complete when the station started cannot have been noticed
         let silence = if self.c11.last_activity_start + 11 * BIT > tx.start { tx.start - self.c11.prev_activity_end } else { tx.start - self.c11.last_activity_end };
@@ -904,8 +921,8 @@ impl W2State {
                     // the station as undecodable bytes after its pass ("something was heard")
                     // … and so does a telegram that was delivered while the station was not reading: it is
                     // processed right after this pass
-                    let fuzzy = (matches!(self.c11.pass, Some((_, 255, _, _))) && !was_holder) || tx.overlaps_prev || self.c11.stale_pending;
-                    self.c11.stale_pending = false;
+                    let fuzzy = (matches!(self.c11.pass, Some((_, 255, _, _))) && !was_holder) || tx.overlaps_prev || self.c11.stale_pending > 0;
+                    self.c11.stale_pending = 0;
                     self.c11.pass = Some((da, if fuzzy { 255 } else { 1 }, tx.end, false));
                     self.c11.heard_from_successor = None;
                 }
@@ -973,12 +990,13 @@ impl W2State {
             b.extend_from_slice(format!("{}|{}|{:?}|{:?}|{}|{:?}", m.holder, rel(m.holder_since), m.offers, m.pass.as_ref().map(|(x, n, e, h)| (*x, *n, rel(*e), *h)), rel(m.last_activity_end), m.heard_from_successor).as_bytes());
             b.extend_from_slice(&rel(m.prev_activity_end).to_le_bytes());
             b.push(m.extra_offer as u8);
+            b.extend_from_slice(format!("{}|{}|{:?}|{:?}|{}|{:?}", m.stale_pending, m.awaiting_reply, m.stale_offers, m.recent_peer_tokens, rel(m.last_activity_start), self.open_status_req_end.map(|e| rel(e))).as_bytes());
         }
         if self.cfg.mon == W2Mon::C12R {
             let m = &self.c12r;
             b.extend_from_slice(format!("{:?}|{:?}|{:?}|{}|{}|{}", m.last_delivery.as_ref().map(|(f, e, r, p)| (f.short(), (self.bus.scaled(self.now) - e).clamp(-1, 300 * BIT), *r, *p)), m.cur_rotation, m.prev_rotation, m.identical.min(3), m.claimed, m.answered).as_bytes());
             b.push(m.ever_identical as u8);
-            b.extend_from_slice(format!("{:?}", m.last_token).as_bytes());
+            b.extend_from_slice(format!("{:?}|{}|{:?}", m.last_token, m.suspended, &m.passes[m.passes.len().saturating_sub(8)..]).as_bytes());
         }
         fnv64(&b)
     }
